@@ -59,6 +59,12 @@ def cases(tier, rng):
     for k_, (kind_, heavy_, proc_, fns_) in enumerate((("F2", "charm", "EM", "FFNS"), ("FL", "total", "NC", "FONLL-FFNS"))):
         out.append(dict(id=f"c01-anchor-zeroed-hiq{k_}", kind=kind_, heavy=heavy_, grid=gz, points=[dict(x=0.1, Q2=3.0e8, cls="bulk")], probe_only=True,
                         pdf=pdfs.SpanPDF.random(rng, 3, True), theory=dict(PTO=1, FNS=fns_, NfFF=3), obs=dict(prDIS=proc_, ProjectileDIS="electron"), kinds=[kind_]))  # fmt: skip
+    # anchors for the massive charged-current kernels at O(a_s) (their gluon coefficients are Python closures over per-call lists): a cell
+    # the random draw of the quick tier reaches only now and then
+    for k_, (kind_, heavy_, fns_, proj_) in enumerate((("FL", "charm", "FFNS", "neutrino"), ("F2", "total", "FONLL-FFNS", "antineutrino"), ("F3", "charm", "FFNS", "electron"))):
+        ga = cards.rand_grid(rng)
+        out.append(dict(id=f"c01-anchor-ccmassive{k_}", kind=kind_, heavy=heavy_, grid=ga, points=cards.rand_points(rng, ga["xgrid"], n=2, q2lo=5.0, q2hi=200.0, xmax=0.6),
+                        pdf=pdfs.SpanPDF.random(rng, ga["deg"], ga["is_log"]), theory=dict(PTO=1, FNS=fns_, NfFF=3), obs=dict(prDIS="CC", ProjectileDIS=proj_), kinds=[kind_]))  # fmt: skip
     for i in range(n):
         ptos = (0, 1, 1, 2, 2, 3) if tier == "thorough" else (0, 1, 1, 2, 3)
         cfg = cards.rand_config(rng, ptos=ptos, sv=(i % 5 == 0))
